@@ -558,6 +558,12 @@ _public_ int m_mod_set_tokenbucket(m_mod_t *mod, uint32_t rate, uint64_t burst) 
 
     /* If it was already set, remove old timer */
     if (mod->tb.timer.ns != 0) {
+        /*
+         * src_deregister consumes a token: lift the old limit first,
+         * or it fails when no tokens are left and the old timer keeps refilling
+         * next to the new one. Tokens are set again below.
+         */
+        mod->tb.tokens = UINT64_MAX;
         m_mod_src_deregister_tmr(mod, &mod->tb.timer);
     }
     
